@@ -180,6 +180,7 @@ def run(ctx):
     k = [sp.Integer(0), sp.Symbol("k1", positive=True), sp.Symbol("k2", positive=True)]
     scl, ctf, slp = sp.Symbol("scale", positive=True), sp.Symbol("cutoff", positive=True), sp.Symbol("slope", real=True)
     jax_plain = None
+    jax_power_plain = None
     for renorm in (False, True):
         for kind in ("amplitude", "power"):
             env = {"self.scale": scl, "self.cutoff": ctf, "self.loglogslope": slp, "self.grid.total_volume": V,
@@ -202,12 +203,20 @@ def run(ctx):
                 ctx.check("R28.1", key + ": sum_{k>0} m_k a_k^2 = (scale*V)^2", tot == 0, f"residual {tot}", mc)
             elif kind == "amplitude":
                 jax_plain = amp
+            else:
+                jax_power_plain = amp
             ctx.check("R28.1", key + ": zero mode = total volume", sp.simplify(amp[0] - V) == 0, f"a_0 = {amp[0]}", mc)
     want = [V] + [scl * sp.sqrt(V) * (1 + (k[i] / ctf) ** 2) ** (slp / 4) for i in (1, 2)]
     if jax_plain is not None:
         ok = all(sp.simplify(sp.expand_power_base(jax_plain[i] - want[i], force=True)) == 0 or sp.simplify(sp.log(jax_plain[i]) - sp.log(want[i])) == 0
                  or sp.simplify(sp.powsimp(sp.expand_log(sp.log(jax_plain[i] / want[i]), force=True), force=True)) == 0 for i in (1, 2))
         ctx.check("R28.2", f"{mc.key}::a_k = scale*sqrt(V)*(1 + (k/cutoff)^2)^(slope/4)", bool(ok), f"a_1 = {jax_plain[1]}", mc)
+    if jax_plain is not None and jax_power_plain is not None:
+        # a power-kind model parametrises the POWER spectrum: its amplitude is the amplitude-kind formula with half the slope
+        half = [x.subs(slp, slp / 2) if hasattr(x, "subs") else x for x in jax_plain]
+        ok = all(sp.simplify(sp.powsimp(sp.expand_log(sp.log(jax_power_plain[i] / half[i]), force=True), force=True)) == 0 for i in (1, 2))
+        ctx.check("R28.2", f"{mc.key}::kind=power without renormalisation = amplitude kind with half the log-log slope (square root of the power spectrum)",
+                  bool(ok), f"a_1(power) = {jax_power_plain[1]}", mc)
     # ------------------------------------------------------------------ Matern (classic): operator chain read per mode
     CM = m.cls(CCF, "_AmplitudeMatern")
     ctx.saw_class(CM)
@@ -306,3 +315,188 @@ def _classic_matern(sp, ini, ps, k, scl, ctf, slp, V):
     if "op" not in env or not isinstance(env["op"], list):
         raise NotUnderstood("amplitude operator `op` not assembled")
     return env["op"]
+
+
+# ---------------------------------------------------------------------------------------------------------------- R28.3
+class _LoopSym:
+    """sympy evaluation of small scalar methods with loops over `self._a` (unrolled for N symbolic sub-spaces)"""
+
+    def __init__(self, sp, N, F, Z, params):
+        self.sp, self.N, self.F, self.Z = sp, N, F, Z
+        self.env = dict(params)
+
+    def ev(self, e, env):
+        sp = self.sp
+        if isinstance(e, ast.Constant) and isinstance(e.value, (int, float)) and not isinstance(e.value, bool):
+            return sp.nsimplify(e.value)
+        if isinstance(e, ast.Name):
+            if e.id in env:
+                return env[e.id]
+            raise NotUnderstood(f"name {e.id}")
+        if isinstance(e, ast.Attribute):
+            t = src(e)
+            if t == "self.azm":
+                return self.Z
+            if t == "self._a":
+                return [("amp", i) for i in range(self.N)]
+            if e.attr == "fluctuation_amplitude":
+                v = self.ev(e.value, env)
+                if isinstance(v, tuple) and v[0] == "amp":
+                    return self.F[v[1]]
+            raise NotUnderstood(t)
+        if isinstance(e, ast.Subscript):
+            v = self.ev(e.value, env)
+            i = self.ev(e.slice, env)
+            if isinstance(v, list):
+                return v[int(i)]
+            raise NotUnderstood(src(e))
+        if isinstance(e, ast.BinOp):
+            a, b = self.ev(e.left, env), self.ev(e.right, env)
+            ops = {ast.Add: lambda: a + b, ast.Sub: lambda: a - b, ast.Mult: lambda: a * b, ast.Div: lambda: a / b, ast.Pow: lambda: a ** b}
+            if type(e.op) in ops:
+                return ops[type(e.op)]()
+            raise NotUnderstood(src(e))
+        if isinstance(e, ast.Compare) and len(e.ops) == 1:
+            a, b = self.ev(e.left, env), self.ev(e.comparators[0], env)
+            f = {ast.Eq: lambda: a == b, ast.NotEq: lambda: a != b, ast.GtE: lambda: a >= b, ast.Gt: lambda: a > b, ast.Lt: lambda: a < b, ast.LtE: lambda: a <= b}.get(type(e.ops[0]))
+            if f is None:
+                raise NotUnderstood(src(e))
+            return bool(f())
+        if isinstance(e, ast.ListComp) and len(e.generators) == 1 and not e.generators[0].ifs:
+            it = self.ev(e.generators[0].iter, env)
+            out = []
+            for x in it:
+                env2 = dict(env)
+                env2[src(e.generators[0].target)] = x
+                out.append(self.ev(e.elt, env2))
+            return out
+        if isinstance(e, ast.Call):
+            nm = call_name(e)
+            if nm == "len" and len(e.args) == 1:
+                v = self.ev(e.args[0], env)
+                return sp.Integer(len(v))
+            if nm == "range" and len(e.args) == 1:
+                return [sp.Integer(i) for i in range(int(self.ev(e.args[0], env)))]
+            if nm == "sqrt" and isinstance(e.func, ast.Attribute) and not e.args:
+                return sp.sqrt(self.ev(e.func.value, env))
+            if nm == "reduce" and len(e.args) == 2:
+                lst = self.ev(e.args[1], env)
+                op = src(e.args[0]).split(".")[-1]
+                acc = lst[0]
+                for x in lst[1:]:
+                    acc = acc + x if op == "add" else acc * x if op == "mul" else None
+                return acc
+            if isinstance(e.func, ast.Attribute) and src(e.func.value) == "self" and e.func.attr in self.methods:
+                args = [self.ev(a, env) for a in e.args]
+                return self.call(e.func.attr, *args)
+            raise NotUnderstood(src(e))
+        raise NotUnderstood(src(e))
+
+    def run(self, stmts, env):
+        for st in stmts:
+            if isinstance(st, ast.Expr):
+                continue
+            if isinstance(st, ast.Assign) and len(st.targets) == 1 and isinstance(st.targets[0], ast.Name):
+                env[st.targets[0].id] = self.ev(st.value, env)
+                continue
+            if isinstance(st, ast.If):
+                tv = self.ev(st.test, env)
+                if not isinstance(tv, bool):
+                    raise NotUnderstood(f"test `{src(st.test)}`")
+                r = self.run(st.body if tv else st.orelse, env)
+                if r is not None:
+                    return r
+                continue
+            if isinstance(st, ast.For):
+                for x in self.ev(st.iter, env):
+                    env[src(st.target)] = x
+                    r = self.run(st.body, env)
+                    if r is not None:
+                        return r
+                continue
+            if isinstance(st, ast.Raise):
+                raise NotUnderstood("raise reached")
+            if isinstance(st, ast.Return):
+                return self.ev(st.value, env)
+            raise NotUnderstood(f"statement `{short(st)}`")
+        return None
+
+    def call(self, name, *args):
+        fi = self.methods[name]
+        env = {p_: a for p_, a in zip(fi.params()[1:], args)}
+        return self.run(fi.node.body, env)
+
+
+def r28_3(ctx, m):
+    sp = _load_sympy()
+    CF = m.cls(CCF, "CorrelatedFieldMaker")
+    ctx.rule("R28.3", "classic product-spectrum fluctuation formulas (three sub-spaces, symbolic): total = azm*sqrt(prod_i(1 + f_i^2) - 1), "
+                      "slice(s) = azm*sqrt(f_s^2 * prod_{j!=s}(1 + f_j^2)), average(s) = a_s with f_i = a_i/azm", floor=4)
+    if sp is None:
+        ctx.error("sympy not importable")
+        return
+    ctx.saw_class(CF)
+    N = 3
+    F = [sp.Symbol(f"a{i}", positive=True) for i in range(N)]
+    Z = sp.Symbol("azm", positive=True)
+    L = _LoopSym(sp, N, F, Z, {})
+    L.methods = CF.methods
+    f2 = [(x / Z) ** 2 for x in F]
+
+    def decide(key, name, args, want):
+        fi = CF.methods.get(name)
+        if fi is None:
+            ctx.und("R28.3", key, f"{name} missing", CF)
+            return
+        ctx.saw_func(fi)
+        try:
+            got = L.call(name, *args)
+        except NotUnderstood as exc:
+            ctx.und("R28.3", key, f"not understood: {exc}", fi)
+            return
+        ok = got is not None and sp.simplify(got ** 2 - want ** 2) == 0
+        ctx.check("R28.3", key, bool(ok), f"{name} = {sp.simplify(got) if got is not None else None}; documented {sp.simplify(want)}", fi)
+    prod_all = (1 + f2[0]) * (1 + f2[1]) * (1 + f2[2])
+    decide(f"{CF.key}.total_fluctuation::azm*sqrt(prod(1 + f_i^2) - 1)", "total_fluctuation", (), Z * sp.sqrt(prod_all - 1))
+    for s_ in range(N):
+        others = sp.Integer(1)
+        for j in range(N):
+            if j != s_:
+                others *= (1 + f2[j])
+        decide(f"{CF.key}.slice_fluctuation::space {s_}", "slice_fluctuation", (sp.Integer(s_),), Z * sp.sqrt(f2[s_] * others))
+        decide(f"{CF.key}.average_fluctuation::space {s_}", "average_fluctuation", (sp.Integer(s_),), F[s_])
+
+
+def r28_4(ctx, m):
+    """the per-axis mode lengths of the JAX Fourier grid use the extent of their own axis"""
+    mod = m.module(RCF)
+    fi = mod.functions.get("get_fourier_mode_distributor")
+    ctx.rule("R28.4", "get_fourier_mode_distributor: on every axis i the wrapped mode index min(n, shape[i] - n) and the mode spacing "
+                      "distances[i] belong to that same axis (axis 0 outside the loop, axis i inside it)", floor=1)
+    if fi is None:
+        ctx.und("R28.4", f"{RCF}::get_fourier_mode_distributor", "missing", mod.relpath)
+        return
+    ctx.saw_func(fi)
+    n = 0
+    for lp in [x for x in ast.walk(fi.node) if isinstance(x, ast.For) and isinstance(x.iter, ast.Call) and call_name(x.iter) == "range"]:
+        i = src(lp.target)
+        subs = [x for st in lp.body for x in ast.walk(st) if isinstance(x, ast.Subscript) and src(x.value) in ("shape", "mspc_distances") and not isinstance(x.slice, ast.Slice)]
+        if not subs:
+            continue
+        n += 1
+        wrong = [x for x in subs if src(x.slice) != i]
+        ctx.check("R28.4", f"{fi.key}::loop over the higher axes uses the extents of axis `{i}`", not wrong,
+                  f"`{src(wrong[0])}` inside the loop over `{i}`: non-square grids get the wrong mode lengths" if wrong else None, fi, wrong[0] if wrong else lp)
+    # axis 0 before the loop
+    pre = [x for st in fi.node.body for x in ast.walk(st) if not isinstance(st, ast.For)]
+    if n == 0:
+        ctx.und("R28.4", f"{fi.key}::axis loop", "not found", fi)
+
+
+_run_c28b = run
+
+
+def run(ctx):  # noqa: F811
+    _run_c28b(ctx)
+    r28_3(ctx, ctx.model)
+    r28_4(ctx, ctx.model)
